@@ -200,6 +200,29 @@ def recasedStruct (fs : Fields) : JM → JM → Bool
   | _, _ => false
 end
 
+mutual
+/-- all pointers removed (`buildFieldsInfo` and the re-casing of keys look through pointers of any depth). -/
+def derefAll : Ty → Ty
+  | .prim p => .prim p
+  | .ptr t => derefAll t
+  | .slice t => .slice (derefAll t)
+  | .map t => .map (derefAll t)
+  | .struct fs => .struct (derefAllFields fs)
+def derefAllFields : Fields → Fields
+  | .nil => .nil
+  | .cons f t rest => .cons f (derefAll t) (derefAllFields rest)
+end
+
+/-- the three loaders by format, on the renderings of one document. -/
+def loadFmtO (o : Opts) (fs : Fields) (d : J) (t : T) : Fmt → R Val
+  | .json => loadJsonO o fs d
+  | .yaml => loadYamlO o fs (embY d)
+  | .toml => loadTomlO o fs t
+
+def VM.get? : VM → Str → Option Val
+  | .nil, _ => none
+  | .cons k v t, q => if k = q then some v else t.get? q
+
 /-! ### the fragment on which `mapping.UnmarshalJsonBytes` and `encoding/json` are compared -/
 
 mutual
